@@ -1,3 +1,4 @@
 SPECIFICATION Spec
+CONSTANTS PanicSlot = FALSE
 INVARIANTS Emit
 CHECK_DEADLOCK FALSE
